@@ -13,6 +13,7 @@ CONSTANTS
   MineWeight = 120
   FeeFirst = TRUE
   EvictMode = "any"
+  ReconcileMature = TRUE
   ShortReorg = FALSE
   MaxBlocks = 2
   MaxSteps = 4
